@@ -9,6 +9,7 @@ import common
 sys.path.insert(0, os.path.join(common.VERIF, "tx"))
 import jwrule as txjw
 import simplifyop as txso
+import qcmodel as txqc
 
 TOL = 1e-9           # relative, dense comparisons
 TOL_DYN = 1e-6       # relative, after time evolution / optimisation (solver tolerances)
@@ -234,7 +235,13 @@ def run(ctx):
         ctx.regen("Gen/SimplifyOp.v", text)
     except Exception as e:
         broken.append("translator tx/simplifyop.py: %r" % (e,))
-    tx_ok = jw_info is not None and so_info is not None
+    qc_info = None
+    try:
+        text, qc_info = txqc.main(common.REPO)
+        ctx.regen("Gen/QcLoops.v", text)
+    except Exception as e:
+        broken.append("translator tx/qcmodel.py: %r" % (e,))
+    tx_ok = jw_info is not None and so_info is not None and qc_info is not None
 
     # ------------------------------------------------------------------ 2. proofs
     ok_build, log = (False, "translator failed")
@@ -345,6 +352,10 @@ def run(ctx):
             for fld in ("dense_dev", "herm_dev", "comm_na", "comm_nb"):
                 if not (c[fld] <= TOL):
                     oracle_bad.append({"what": fld, "case": case, "value": c[fld]})
+            if c.get("adj_bad"):
+                oracle_bad.append({"what": "term list not closed under the adjoint (partner class missing, different coefficient, or operator not the transpose)",
+                                   "case": case, "value": c["adj_bad"], "example": c.get("adj_example")})
+            ev += c.get("adj_checked", 0)
             if c.get("charged_terms"):
                 oracle_bad.append({"what": "terms with non-zero total quantum number", "case": case, "value": c["charged_terms"]})
             if case["stacked"] and not c.get("stacked_same_multiset"):
@@ -658,6 +669,7 @@ H = L.dense_of_terms(basis, terms); R = L.fermionic_h(h, eri); na, nb = L.number
 print(abs(H - R).max(), abs(H - H.T).max(), abs(H @ na - na @ H).max(), abs(H @ nb - nb @ H).max())
 assert abs(H - R).max() < 1e-9 * max(1, abs(R).max()) and abs(H - H.T).max() < 1e-9 and abs(H @ na - na @ H).max() < 1e-9 and abs(H @ nb - nb @ H).max() < 1e-9
 assert all(not np.any(np.asarray(t.qn) != 0) for t in L.flat_terms(terms)), "a generated term carries a net quantum number"
+Hs = sum(L.term_dense(t, 2 * %(nsp)d) for t in L.flat_terms(terms)); assert abs(Hs - Hs.T).max() < 1e-9, "term list not closed under the adjoint"
 """ % oracle_bad[0]["case"]) if found else None)
     if rule_bad:
         ctx.violation("jw-rule-correspondence", "correspondence generated swap rule / symbol matrices vs implementation",
